@@ -203,6 +203,33 @@ Definition emits_from_ref_self (d : details) : bool :=
   | _ => false
   end.
 
+(* ---- the impl headers every item of a kind carries, whatever its inner type ----
+   (trait, self type) with $T = the item's name and $I = the inner type as rendered.
+   enum: 1061 (`From<&Self>`); struct: 1184; newtype: Deref / From<T> for I / From<&T> (1639-1656),
+   then per constraint arm: None 1436 (+ FromStr for a String inner, 1361-1373);
+   DenyValue | EnumValue 1475-1508 (TryFrom<I>, Deserialize); String 1551-1605 (FromStr, the three
+   TryFrom, Deserialize).  Impls that depend on the inner type's has_impl, on defaults or on
+   bespoke flags are not listed (C17's business). *)
+Definition expected_impls (k : kind) : list (string * string) :=
+  match k with
+  | KindEnum _ => [("::std::convert::From<&Self>", "$T")]
+  | KindStruct => [("::std::convert::From<&$T>", "$T")]
+  | KindNewtype s c =>
+      app [("::std::ops::Deref", "$T"); ("::std::convert::From<$T>", "$I"); ("::std::convert::From<&$T>", "$T")]
+      match c with
+      | KNone => ("::std::convert::From<$I>", "$T") :: (if s then [("::std::str::FromStr", "$T")] else [])
+      | KEnumValue | KDenyValue =>
+          [("::std::convert::TryFrom<$I>", "$T"); ("::serde::Deserialize<'de>", "$T")]
+      | KString =>
+          [("::std::str::FromStr", "$T"); ("::std::convert::TryFrom<&str>", "$T");
+           ("::std::convert::TryFrom<&::std::string::String>", "$T");
+           ("::std::convert::TryFrom<::std::string::String>", "$T"); ("::serde::Deserialize<'de>", "$T")]
+      end
+  end%string.
+
+Definition has_header (h : string) (k : kind) : bool :=
+  existsb (fun p => String.eqb (fst p) h) (expected_impls k).
+
 (* ---- when is #[derive(X)] satisfiable (rustc's rule: every field type: X,
         and X's supertraits implemented for the type itself) ---- *)
 Definition always_derivable_names : list string :=
@@ -361,6 +388,9 @@ Definition show_entry (T : space) (fuel : nat) (e : entry) : string :=
       "],""de_impl"":" ++ show_bool (emits_validating_deserialize (e_det e)) ++
       ",""from_ref"":" ++ show_bool (emits_from_ref_self (e_det e)) ++
       ",""panics"":" ++ show_bool (output_panics T (e_det e)) ++
+      ",""impls"":[" ++ join "," (map (fun p => "[""" ++ fst p ++ """,""" ++ snd p ++ """]")
+                                     (match kind_of T (e_det e) with Some k => expected_impls k | None => [] end)) ++
+      "]" ++
       ",""underivable"":[" ++ join "," (map show_ustr (underivable_of T fuel e)) ++
       "]}"
   end.
